@@ -188,6 +188,17 @@ def renderPieces (useColor : Bool) (ps : List (Color × Text)) : Text :=
   if useColor then (ps.map fun p => p.1.code ++ p.2 ++ resetCode).flatten
   else (ps.map fun p => p.2).flatten
 
+/-- `message.format(source_codes)` for every message of one group, in order. -/
+def formatMsgs (sources : List (String × Text)) : Group → Except Crash (List (List (Color × Text)))
+  | [] => .ok []
+  | m :: ms =>
+    match formatMsg m sources with
+    | .error c => .error c
+    | .ok p =>
+      match formatMsgs sources ms with
+      | .error c => .error c
+      | .ok ps => .ok (p :: ps)
+
 /-- The list `result` of `format_errors`, or the failed assertion. -/
 def formatGroups (useColor : Bool) (sources : List (String × Text)) :
     Errors → Except Crash (List Text)
@@ -195,7 +206,7 @@ def formatGroups (useColor : Bool) (sources : List (String × Text)) :
   | g :: gs =>
     if g.isEmpty then .error .emptyGroup
     else
-      match g.mapM (fun m => formatMsg m sources) with
+      match formatMsgs sources g with
       | .error c => .error c
       | .ok ps =>
         match formatGroups useColor sources gs with
